@@ -535,9 +535,17 @@ def r4(ctx):
     for cname in ("HeaderDecodeResult", "MessageDecodeResult"):
         cm = ctx.repo.module("pyairtouch.comms")
         fn = cm.get_class(cname).methods.get("assert_complete")
-        tests = [x for x in ast.walk(fn) if isinstance(x, ast.If)] if fn else []
-        ok = len(tests) == 1 and norm_text(tests[0].test) in ("len(self.remaining) > 0", "self.remaining", "len(self.remaining) != 0") and any(isinstance(x, ast.Raise) and "DecodeError" in unparse(x) for x in ast.walk(tests[0]))
-        ctx.check(ok, "C03.R4", f"comms.{cname}.assert_complete", cm, fn, "raises DecodeError when bytes remain", "different")
+        ok = False
+        if fn is not None:
+            af = Fn(ctx.repo, cm, f"{cname}.assert_complete")
+            ag = af.cfg
+            raises = [n for n in ag.nodes if n.kind == "stmt" and isinstance(n.ast, ast.Raise) and "DecodeError" in unparse(n.ast)]
+            for t in af.tests(lambda e: norm_text(e) == "self.remaining"):
+                tb, fb = af.branch(t, "true"), af.branch(t, "false")
+                # bytes remain -> every path raises DecodeError; nothing remains -> no raise reachable
+                if raises and ag.all_paths_pass(tb.id, [ag.exit.id, ag.raise_exit.id], [r.id for r in raises], None) and not any(ag.exists_path(fb.id, r.id) for r in raises):
+                    ok = True
+        ctx.check(ok, "C03.R4", f"comms.{cname}.assert_complete", cm, fn, "raises DecodeError exactly when bytes remain", "different")
 
 
 # ------------------------------------------------------------------------------------------ R5
@@ -618,6 +626,11 @@ def r5(ctx):
 
 
 # ------------------------------------------------------------------------------------------ R6
+def _local_decode_calls(f: Fn):
+    """calls `<local>.decode(...)`: the sub-decoder picked at run time (whatever the local is called)"""
+    return [(n, c) for n, c in f.calls_pred(lambda d: d.endswith(".decode") and d.count(".") == 1) if isinstance(c.func.value, ast.Name) and c.func.value.id not in f.params and c.args]
+
+
 def r6(ctx):
     R = "C03.R6"
     for gen in ("at4", "at5"):
@@ -629,7 +642,7 @@ def r6(ctx):
         hdr = f.params[2]
         ok = kw.get("message_length") in (f"{hdr}.message_length - _SUB_HEADER_STRUCT.size", f"{hdr}.message_length - 2") and kw.get("message_id") == f"_SUB_HEADER_STRUCT.unpack_from({f.params[1]})[0]" or (kw.get("message_length") == f"{hdr}.message_length - _SUB_HEADER_STRUCT.size" and "message_id" in kw)
         ctx.check(ok, R, f"{gen}:ExtendedMessageDecoder:sub-length", m, f.node, "sub-header length = header.message_length - sub-header size", str(kw))
-        decs = f.calls("sub_message_decoder.decode")
+        decs = _local_decode_calls(f)
         ok = len(decs) == 1 and norm_text(decs[0][1].args[0]) == f"{f.params[1]}[_SUB_HEADER_STRUCT.size:]"
         ctx.check(ok, R, f"{gen}:ExtendedMessageDecoder:sub-buffer", m, f.node, "the sub-decoder gets the bytes after the sub-header", norm_text(decs[0][1]) if decs else "")
         e = Fn(ctx.repo, m, "ExtendedMessageEncoder.encode")
@@ -672,7 +685,7 @@ def r6(ctx):
     kw = {k.arg: enc.expand_text(k.value, e_cons[0][0], keep={"sub_message_encoder"}) for k in e_cons[0][1].keywords} if e_cons else {}
     ok = kw == {"sub_message_id": want[0], "non_repeat_length": want[1], "repeat_count": want[3], "repeat_length": want[2]}
     ctx.check(ok, R, "at5:ControlStatusEncoder:sub-header-object", m, enc.node, "the sub-header object handed to the sub-encoder carries the same four values", str(kw))
-    decs = dec.calls("sub_message_decoder.decode")
+    decs = _local_decode_calls(dec)
     ok = len(decs) == 1 and norm_text(decs[0][1].args[0]) == f"{dec.params[1]}[_SUB_HEADER_STRUCT.size:]"
     ctx.check(ok, R, "at5:ControlStatusDecoder:sub-buffer", m, dec.node, "the sub-decoder gets the bytes after the 8-byte sub-header", norm_text(decs[0][1]) if decs else "")
     # stride decoders hand back what is left after count * stride (assert_complete then catches trailing bytes)
